@@ -518,6 +518,38 @@ pub fn shard_run(tier: &str, seed: u64, replay_case: Option<usize>, shard: Shard
                             (FaultKind::Lock, if no_wal { 10 } else { 6 }, vec![5, 3850], vec![1, 1000]),
                         ]
                     };
+                    // ---- an outage: the storage is unavailable for six consecutive requests (the
+                    // database cannot be opened / stays locked), then it is back: the very next requests
+                    // must be served normally
+                    if oi % 7 == 0 {
+                        for (fk, code) in [(FaultKind::Open, 14), (FaultKind::Lock, 5)] {
+                            let mut s = match open_copy(img.path(), kind, &hook) {
+                                Ok(s) => s,
+                                Err(_) => continue,
+                            };
+                            hook.reset(-1, false);
+                            vfs::start_recording();
+                            vfs::arm(Some(FaultSpec { kind: fk, nth: 0, code, repeat: u64::MAX / 2 }));
+                            let mut failed = 0;
+                            for _ in 0..6 {
+                                if matches!(s.exec(cid, &req), Resp::Error(_)) {
+                                    failed += 1;
+                                }
+                                let _ = s.exec(cid, &Req::GetSnapshot);
+                            }
+                            vfs::arm(None);
+                            let _ = vfs::stop_recording();
+                            cov.evaluations += 1;
+                            cov.hit(format!("outage|{}|{fk:?}|failed-requests={}", kind.name(), if failed >= 5 { "5+" } else { "fewer" }));
+                            let probes = [s.exec(cid, &Req::GetChild { parent: Uuid::nil() }), s.exec(cid, &Req::GetSnapshot), s.exec(cid, &req)];
+                            if let Some(Resp::Error(e)) = probes.iter().find(|p| matches!(p, Resp::Error(_))) {
+                                let m = format!("[{}] after an outage of the storage during 12 consecutive requests ({fk:?} failing with code {code}; {failed} of 6 {} requests failed) the storage is available again, yet the next request is answered with an error: {e}", kind.name(), req.name());
+                                out.found.push(Found { property: "C05".into(), signature: "C05:vfs outage later requests fail".into(), msg: m, replay: json!({"origin": "c05-outage", "case": hi * 100_000 + oi * 1000}) });
+                                out.cov = cov;
+                                return out;
+                            }
+                        }
+                    }
                     for (fk, n, codes, repeats) in counts {
                         for nth in 0..n {
                             for code in &codes {
@@ -608,7 +640,7 @@ pub fn finalize(out: ShardOut, is_replay: bool) -> CheckResult {
         "counters": cov.counters,
         "situations_top": top.iter().take(40).map(|(k, v)| json!({"situation": k, "n": v})).collect::<Vec<_>>(),
     });
-    let required = ["vfs|", "vfs-rollback-journal|", "|Lock|code5-persistent|", "|Write|code778|error|", "|Sync|code1034|", "AddVersion|Commit|After", "AddVersion|Commit|Before", "AddVersion|AddVersion|", "AddSnapshot|SetSnapshot|", "AddSnapshot|GetVersion|", "GetChildVersion|GetVersionByParent|", "AddVersion|NewClient|", "GetSnapshot|GetSnapshotData|", "|Begin|"];
+    let required = ["vfs|", "vfs-rollback-journal|", "|Lock|code5-persistent|", "outage|", "|Write|code778|error|", "|Sync|code1034|", "AddVersion|Commit|After", "AddVersion|Commit|Before", "AddVersion|AddVersion|", "AddSnapshot|SetSnapshot|", "AddSnapshot|GetVersion|", "GetChildVersion|GetVersionByParent|", "AddVersion|NewClient|", "GetSnapshot|GetSnapshotData|", "|Begin|"];
     let verdict = if !out.found.is_empty() {
         Verdict::Violated(out.found)
     } else if !out.errors.is_empty() {
